@@ -594,7 +594,7 @@ Proof.
   intros Hlen. unfold eps_labelling.
   set (merged := map _ (combine _ fails)).
   assert (Hm : length merged = length fails).
-  { unfold merged, eps_failures. rewrite map_length, combine_length, map_length. lia. }
+  { unfold merged, eps_failures. rewrite map_length, combine_length. destruct (no_success vals fails); rewrite map_length; lia. }
   pose proof (min_successes om vals merged ltac:(lia)) as H. cbv zeta in H. destruct H as (_ & _ & H & _).
   rewrite H, Hm. lia.
 Qed.
